@@ -71,9 +71,16 @@ def main():
             if code != 0:
                 alarms.append(p)
                 print("   ALARM %s (exit %d): %s" % (p, code, first[:220] or o[-300:].replace("\n", " ")))
-        out["alarms"] = alarms
         dst = os.path.join(HERE, "seeded", "benign", "%s-%s" % (pid, k))
         os.makedirs(dst, exist_ok=True)
+        prevp = os.path.join(dst, "meta.json")
+        if only and os.path.exists(prevp):
+            # a partial re-run: keep the earlier results of the checks that were not run again
+            prev = json.load(open(prevp))
+            kept = [r for r in prev.get("ran", []) if r.get("step") == "check" and r.get("property") not in only]
+            out["ran"] += kept
+            alarms += [r["property"] for r in kept if r.get("exit") != 0]
+        out["alarms"] = sorted(set(alarms))
         shutil.copy(os.path.join(src, "patch.diff"), dst)
         if os.path.exists(eq):
             shutil.copy(eq, dst)
